@@ -2,7 +2,8 @@
 
 Spec: specs/identity/Encodings.tla (decision tables: key strings by length x alphabet class x
 trailing bits x point validity; key byte strings; CustomAddr inline/heap representation model;
-CustomAddr binary / string forms; symbolic signature truth table; Enc x Type support matrix).
+CustomAddr binary / string forms; symbolic signature truth table; Enc x Type support matrix;
+postcard wire layout with the truncate / flip-one-bit / extend mutation layer per field).
 TLC enumerates all tables in one run (one initial state per abstract case), checks that the
 mechanism written like the code agrees with the property's rule (MechanismIsRule, OnlyPoints,
 AcceptRoundTrips, ReprIndependent, EncodersAccepted, ...) and prints every case with its expected
@@ -18,7 +19,13 @@ Deviation from the design text: none in technique.  "either" verdicts are used w
 property does not decide (trailing bytes after a complete postcard value; upper-case / '+' /
 leading-zero forms of a CustomAddr string) - an accepted value must still be the numeric one.
 
-Mutation self-tests done while building (each gave VIOLATION, undo -> exit 0):
+Binding self-test (every run): one expectation is flipped in ~80 cases spread over the tables and the
+harness must report every one of them as a mismatch, otherwise the run is a tool error.
+
+Mutation self-tests done while building (each gave VIOLATION and exit 1, the unmutated tree exit 0;
+run in a private copy of /repo + /verif under /var/tmp/ident-mut instead of the shared /repo, because
+a harness rebuild took 5-25 minutes on the loaded machine and eleven other builders compile against
+/repo - a mutated iroh-base there would have leaked into their checks):
   * PublicKey::from_bytes without the curve check -> "accepted public key is a curve point" /
     verdict mismatches in keystr + keybytes non-point classes;
   * CustomAddrBytes inline threshold `<= 31` -> panic (slice index) at payload length 31 in caddr,
@@ -53,7 +60,7 @@ META = {
     "design_ref": "§6 C02",
 }
 
-TABLES = ["keystr", "keybytes", "caddr", "caddrbin", "caddrstr", "sig", "matrix"]
+TABLES = ["keystr", "keybytes", "caddr", "caddrbin", "caddrstr", "sig", "matrix", "layout"]
 CONSTS = {"InlineCap": 30, "Threshold": 30}
 
 
@@ -73,7 +80,7 @@ def sig_of(c, f):
     if what != "panic":
         what = what.split(" (")[0]
     s = {"tbl": c["tbl"], "what": what}
-    for k in ("dec", "alpha", "len", "mat", "route", "n", "type", "enc", "tamper"):
+    for k in ("dec", "alpha", "len", "mat", "route", "n", "type", "enc", "tamper", "fname", "mut"):
         if k in c:
             s[k] = c[k]
     s["exp"] = f["exp"] if len(f["exp"]) < 24 else "value"
@@ -94,6 +101,8 @@ def run_cases(ctx, cases, n, tag):
         ctx.count(case_key(c), nontrivial=nontrivial(c), n=o["runs"])
         per_tbl[c["tbl"]] = per_tbl.get(c["tbl"], 0) + o["runs"]
         for f in o["fails"]:
+            if f["what"].startswith("harness-assumption"):
+                raise ToolError("harness could not concretise %s: %s %s" % (json.dumps(case_key(c)), f["got"], f["exp"]))
             ctx.report(sig_of(c, f),
                        "%s case %s, concretisation %d: %s: spec says %s, implementation gave %s (input %s)"
                        % (c["tbl"], json.dumps(case_key(c), sort_keys=True), f["rep"], f["what"], f["exp"], f["got"],
@@ -101,6 +110,56 @@ def run_cases(ctx, cases, n, tag):
                        {"case": c, "n": n, "rep": f["rep"], "fail": f})
             break
     return per_tbl
+
+
+def flip(c):
+    """One expectation of the case turned around (binding self-test): the harness must object."""
+    c = dict(c)
+    t = c["tbl"]
+    if t in ("keystr", "caddrbin"):
+        c["accept"] = not c["accept"]
+    elif t in ("keybytes", "caddrstr"):
+        if c["accept"] == "either":
+            return None
+        c["accept"] = "no" if c["accept"] == "yes" else "yes"
+    elif t == "caddr":
+        c["data_len"] += 1
+    elif t == "sig":
+        if c["pk"] == "weak":
+            return None
+        c["ok"] = not c["ok"]
+    elif t == "matrix":
+        if c["out"]["alpha"] == "":
+            return None
+        c["out"] = dict(c["out"], len=c["out"]["len"] - 1)
+    elif t == "layout":
+        if c["verdict"] not in ("yes", "no"):
+            return None
+        c["verdict"] = "no" if c["verdict"] == "yes" else "yes"
+    return c
+
+
+def binding_selftest(ctx, cases):
+    """Flip one expectation in a spread of cases: every flipped case must come back as a mismatch."""
+    flipped = []
+    per = {}
+    for c in cases:
+        f = flip(c)
+        if f is None or per.get(c["tbl"], 0) >= 12:
+            continue
+        if c["tbl"] == "keystr" and not (c["len"] in (52, 64) and c["mat"] != "na"):
+            continue
+        per[c["tbl"]] = per.get(c["tbl"], 0) + 1
+        flipped.append(f)
+    inp = ctx.write_ndjson("c02-selftest.in", flipped)
+    outp = ctx.path("c02-selftest.out")
+    ctx.run_bin("vh_ident", ["c02", "--in", inp, "--out", outp, "--n", 4])
+    obs = ctx.read_ndjson(outp)
+    missed = [case_key(c) for c, o in zip(flipped, obs) if o["ok"]]
+    if len(obs) != len(flipped) or missed:
+        raise ToolError("binding self-test: %d flipped expectations were not detected, e.g. %s" % (len(missed), missed[:3]))
+    ctx.log("binding self-test: %d flipped expectations, all detected (%s)" % (len(flipped), per))
+    ctx.cov["binding_selftest_flips_detected"] = len(flipped)
 
 
 def run(ctx):
@@ -123,15 +182,17 @@ def run(ctx):
         c["idx"] = i
     n = ctx.pick(8, 200)
     per_tbl = run_cases(ctx, cases, n, "all")
+    binding_selftest(ctx, cases)
     ctx.log("concretisations per table: %s" % per_tbl)
     for c in cases:
         if (c["tbl"] == "keystr" and c["accept"] and c["alpha"] == "b32Mixed") or \
            (c["tbl"] == "keystr" and c["len"] == 52 and not c["canon"] and c["dec"] == "pk_fromstr" and c["alpha"] == "b32Lower"
             and c["mat"] == "point") or \
            (c["tbl"] == "caddr" and c["n"] == 31 and c["route"] == "postcard" and c["idc"] == "max") or \
-           (c["tbl"] == "sig" and c["tamper"] == "sPlusL" and c["pk"] == c["sk"] and c["msg"] == c["m"]):
-            ctx.sample(case_key(c), limit=6)
-    ctx.cov["rule"] = ("every row of the seven decision tables of Encodings.tla (enumerated exhaustively by TLC), each "
+           (c["tbl"] == "sig" and c["tamper"] == "sPlusL" and c["pk"] == c["sk"] and c["msg"] == c["m"]) or \
+           (c["tbl"] == "layout" and c["type"] == "eaddr" and c["mut"] == "flip" and c["fname"] == "key32"):
+            ctx.sample(case_key(c), limit=7)
+    ctx.cov["rule"] = ("every row of the eight decision tables of Encodings.tla (enumerated exhaustively by TLC), each "
                        "concretised %d times with seeded random material; a key-string / key-bytes case is non-trivial when it "
                        "carries key material, is accepted, or sits at a length that passes the length checks" % n)
     ctx.cov["exhaustive"] = True
